@@ -1,8 +1,97 @@
-import Pun.Model.Proto
+import Pun.Model.Tmcmc
 namespace Pun.Drv.C19
-open Pun
+open Pun Pun.Tmcmc
+
+/-- token parser over the remaining tokens of the request line -/
+abbrev P := StateT (List String) Option
+
+def tok : P String := do
+  match (← get) with
+  | t :: rest => set rest; pure t
+  | [] => failure
+
+def pRat : P Rat := do let t ← tok; liftM (parseRat t)
+def pNat : P Nat := do let t ← tok; liftM (parseNat t)
+def pList : P (List Rat) := do let t ← tok; liftM (parseList t)
+def pNatList : P (List Nat) := do let t ← tok; liftM (parseNatList t)
+
+def parseEV (t : String) : Option EV :=
+  if t = "nf" then some none else (parseRat t).map some
+def pEV : P EV := do let t ← tok; liftM (parseEV t)
+
+def rep {α} (p : P α) : Nat → P (List α)
+  | 0 => pure []
+  | n + 1 => do let a ← p; let as ← rep p n; pure (a :: as)
+
+def showEV : EV → String
+  | none => "nf"
+  | some r => showRat r
+
+def parseAns (t : String) : Option Ans :=
+  if t = "nan" then some .nan else (parseRat t).map .val
+
+def parseAnsList (s : String) : Option (List Ans) := do
+  let body ← unbracket s
+  if body.isEmpty then some [] else (body.splitOn ",").mapM parseAns
+
+def pProposal : P Proposal := do
+  let x ← pList; let pr ← pEV; let l ← pEV; pure ⟨x, pr, l⟩
+
+def pParticle : P Particle := do
+  let x ← pList; let l ← pEV; let po ← pEV; pure ⟨x, l, po⟩
+
+def pMove : P Move := do
+  let n ← pNat; let ps ← rep pProposal n; let lus ← pList; pure ⟨ps, lus⟩
+
+def runP {α} (p : P α) (toks : List String) : Option α :=
+  match p.run toks with
+  | some (a, []) => some a
+  | _ => none
+
+def showBool (b : Bool) : String := if b then "1" else "0"
+
+def hBisect : P String := do
+  let old ← pRat; let prev ← pRat; let bs ← pList
+  let t ← tok
+  let es ← liftM (parseAnsList t)
+  if bs.length ≠ es.length then failure
+  match computeBeta consts (tableEss (bs.zip es)) old prev with
+  | .need b => pure s!"need {showRat b}"
+  | .raise e => pure s!"err {e}"
+  | .done b e c => pure s!"ok {showRat b} {showRat e} {showBool c} {showRat (rN consts prev)}"
+
+def hWeights : P String := do
+  let w ← pList
+  if w.isEmpty then pure "err Value"
+  else if sumL w = 0 then failure
+  else pure s!"ok {showList (weights w)} {showRat (evidenceArg w)}"
+
+def hMh : P String := do
+  let β ← pRat; let x ← pList; let l ← pEV; let po ← pEV; let acc ← pNat
+  let m ← pMove
+  match mhRun β ⟨x, l, po, acc⟩ m.props m.lus with
+  | none => pure "err Other"
+  | some (s, rest, cs) =>
+    pure s!"ok {showList s.x} {showEV s.lik} {showEV s.post} {s.acc} {rest.length} {showNatList cs}"
+
+def hStage : P String := do
+  let β ← pRat; let β' ← pRat; let n ← pNat
+  let ps ← rep pParticle n
+  let ids ← pNatList
+  let k ← pNat
+  let ms ← rep pMove k
+  match stage β β' ps ids ms with
+  | none => pure "err Index"
+  | some (cap, nxt) =>
+    let a := " ".intercalate (nxt.map fun (p, acc) => s!"{showList p.x} {showEV p.lik} {showEV p.post} {acc}")
+    let b := " ".intercalate (cap.map fun p => showEV p.post)
+    pure s!"ok {nxt.length} {a} {b}"
 
 def handle : List String → String
+  | "bisect" :: rest => (runP hBisect rest).getD "bad-op"
+  | "weights" :: rest => (runP hWeights rest).getD "bad-op"
+  | "mh" :: rest => (runP hMh rest).getD "bad-op"
+  | "stage" :: rest => (runP hStage rest).getD "bad-op"
   | _ => "bad-op"
 
 end Pun.Drv.C19
